@@ -465,10 +465,47 @@ func (fx *FnExec) call(instr ssa.Instruction, cc *ssa.CallCommon, pos token.Pos)
 	}
 	if con != nil {
 		var err error
+		// parameters the callee writes into (contract flag `writes p`): the argument must be a local buffer;
+		// out(p) in the postcondition is the new content of that region
+		fx.outs = map[string]string{}
+		fx.ins = map[string]string{}
+		var written []struct {
+			b *bufRef
+			w string
+		}
+		if wp := con.Flags["writes"]; wp != "" {
+			names := contractParamNames(con)
+			as := cc.Args
+			if !cc.IsInvoke() && cc.Signature().Recv() != nil && len(as) > 0 {
+				as = as[1:]
+			}
+			for i, n := range names {
+				if n != wp || i >= len(as) {
+					continue
+				}
+				if b, ok := fx.bufs[as[i]]; ok {
+					w := fx.c.fresh("written", "Str")
+					fx.assume(sEq(app("str_len", w), b.len))
+					fx.outs[n] = w
+					cur := fx.heapVar(&fx.cur, b.name, "Str")
+					fx.ins[n] = app("str_sub", cur, b.off, sAdd(b.off, b.len))
+					written = append(written, struct {
+						b *bufRef
+						w string
+					}{b, w})
+				} else {
+					fx.abstract("callee writes into a slice that is not a local buffer: " + displayKey(key))
+				}
+			}
+		}
 		result, err = fx.applyContract(con, key, recv, args, resultType, resT, pos)
 		if err != nil {
 			return Val{}, err
 		}
+		for _, wr := range written {
+			fx.bufSplice(wr.b, wr.w)
+		}
+		fx.outs = nil
 	} else {
 		if fx.calleeIsPure(cc) {
 			fx.usedContracts["pure-package:"+key] = true
@@ -702,6 +739,18 @@ func (fx *FnExec) builtin(b *ssa.Builtin, cc *ssa.CallCommon, instr ssa.Instruct
 		}
 		return out, nil
 	case "copy":
+		if b, ok := fx.bufs[cc.Args[0]]; ok {
+			src := args[1]
+			var srcStr, srcLen string
+			if isString(cc.Args[1].Type()) {
+				srcStr, srcLen = src.one(), app("str_len", src.one())
+			} else {
+				srcStr, srcLen = app("bytes_str", src.L[2], src.L[1]), src.L[1]
+			}
+			n := sIte(sLe(srcLen, b.len), srcLen, b.len)
+			fx.bufSplice(b, app("str_sub", srcStr, "0", n))
+			return Val{T: rt, L: []string{n}}, nil
+		}
 		fx.abstract("copy() into a slice (slices are immutable values)")
 		r := fx.freshVal(rt, "copy")
 		return r, nil
